@@ -163,6 +163,19 @@ def run_case(case, o: Oracle) -> None:
         return
     want_scheme = {"v1": "rsa", "v21": "ecc", "vx": "vx"}.get(G.cert_kind(cls)) or ("bca_crc" if info["bca_crc"] else "crc")
     o.eq("rom_accepts", "scheme", rep.get("scheme"), want_scheme)
+    # the same object exported once more gives an equally acceptable image (byte-identical where nothing random goes in)
+    img2 = None
+    with o.spsdk("export_again"):
+        img2 = bytes(obj.export_image().export())
+    if img2 is not None:
+        try:
+            rep2 = mbi_rom.check(img2, info, b.user_key)
+            o.eq("export_again", "length", len(img2), len(img))
+            o.eq("export_again", "scheme", rep2.get("scheme"), rep.get("scheme"))
+            if rep.get("scheme") in ("crc", "bca_crc"):
+                o.check("export_again", img2 == img, "bytes", first_diff(img2, img))
+        except mbi_rom.Reject as exc:
+            o.fail("export_again", exc.code, "second export of the same object: " + str(exc))
     if info["layout"] == "ivt":
         o.eq("rom_accepts", "image_type", rep["header"]["image_type"], cls["image_type"])
 
